@@ -205,12 +205,29 @@ class SuperSpeedStreamInEndpoint(Elaboratable):
         # to send an ERDY packet to have it resume polling.
         erdy_required = Signal()
 
+        # Stores whether the handshake generator has accepted the ERDY request we're currently making.
+        erdy_accepted = Signal()
+
         # Shortcut for when we need to deal with an in token.
         # Note that, for USB3, an IN token is an ACK that contains a non-zero ``number_of_packets``.
         is_to_us          = (handshakes_in.endpoint_number == self._endpoint_number)
         is_in_token       = (handshakes_in.number_of_packets != 0)
         ack_received      = handshakes_in.ack_received & is_to_us
         in_token_received = ack_received & is_in_token
+
+        # Any NRDY / ERDY we generate is on behalf of this endpoint.
+        m.d.comb += handshakes_out.endpoint_number.eq(self._endpoint_number)
+
+        # Our transfer information must be valid whenever a packet starts -- which includes ZLPs (sent from
+        # outside of SEND_PACKET) and the first valid cycle of single-word packets (which occurs once we've
+        # already moved on to WAIT_FOR_ACK) -- so we'll drive it constantly. A ZLP issued in the same cycle
+        # as we advance our sequence number belongs to the -next- sequence number.
+        m.d.comb += [
+            interface.tx_direction        .eq(USBDirection.IN),
+            interface.tx_sequence_number  .eq(Mux(advance_sequence, next_sequence_number, sequence_number)),
+            interface.tx_length           .eq(read_fill_count),
+            interface.tx_endpoint_number  .eq(self._endpoint_number),
+        ]
 
         with m.FSM(domain='ss'):
 
@@ -229,10 +246,15 @@ class SuperSpeedStreamInEndpoint(Elaboratable):
                 packet_complete = (write_fill_count + 4 >= self._max_packet_size)
                 will_end_packet = packet_complete | in_stream.last
 
-                with m.If(in_stream.valid & will_end_packet):
+                # It's also possible that the packet was completed while we were on our way to this state
+                # (e.g. the stream ended in the same cycle as we received our ACK); in which case our
+                # write buffer no longer accepts data.
+                already_complete = ~in_stream.ready
+
+                with m.If((in_stream.valid & will_end_packet) | already_complete):
 
                     # If we've just finished a packet, we now have data we can send!
-                    with m.If(packet_complete | in_stream.last):
+                    with m.If(packet_complete | in_stream.last | already_complete):
                         m.d.ss += [
 
                             # We're now ready to take the data we've captured and _transmit_ it.
@@ -261,8 +283,17 @@ class SuperSpeedStreamInEndpoint(Elaboratable):
                 # Send our ERDY token...
                 m.d.comb += handshakes_out.send_erdy.eq(1)
 
+                # ... which is only accepted once the handshake generator is ready for it; it may
+                # still be busy sending the NRDY that brought us here.
+                with m.If(handshakes_out.ready):
+                    m.d.ss += erdy_accepted.eq(1)
+
                 # ... and once that send is complete, move on to waiting for an IN token.
-                with m.If(handshakes_out.done):
+                with m.If(handshakes_out.done & erdy_accepted):
+                    m.d.ss += [
+                        erdy_accepted  .eq(0),
+                        erdy_required  .eq(0)
+                    ]
                     m.next = "WAIT_TO_SEND"
 
 
@@ -298,14 +329,6 @@ class SuperSpeedStreamInEndpoint(Elaboratable):
             # SEND_PACKET -- we now have enough data to send _and_ have received an IN token.
             # We can now send our data over to the host.
             with m.State("SEND_PACKET"):
-
-                m.d.comb += [
-                    # Apply our general transfer information.
-                    interface.tx_direction        .eq(USBDirection.IN),
-                    interface.tx_sequence_number  .eq(sequence_number),
-                    interface.tx_length           .eq(read_fill_count),
-                    interface.tx_endpoint_number  .eq(self._endpoint_number),
-                ]
 
                 with m.If(~out_stream.valid.any() | out_stream.ready):
                     # Once we emitted a word of data for our receiver, move to the next word in our packet.
@@ -362,8 +385,9 @@ class SuperSpeedStreamInEndpoint(Elaboratable):
             # received it correctly. We'll wait to see if the host ACKs.
             with m.State("WAIT_FOR_ACK"):
 
-                # We're done transmitting data.
-                m.d.ss   += out_stream.valid.eq(0)
+                # We're done transmitting data, once our last word has been accepted.
+                with m.If(out_stream.ready):
+                    m.d.ss   += out_stream.valid.eq(0)
 
                 # Reset our send-position for the next data packet.
                 m.d.ss   += send_position   .eq(0)
@@ -383,10 +407,7 @@ class SuperSpeedStreamInEndpoint(Elaboratable):
 
                         # In this case, we'll re-transmit the relevant data, either by sending another ZLP...
                         with m.If(last_packet_was_zlp):
-                            m.d.comb += [
-                                interface.tx_zlp.eq(1),
-                                advance_sequence.eq(1),
-                            ]
+                            m.d.comb += interface.tx_zlp.eq(1)
 
                         # ... or by moving right back into sending a data packet.
                         with m.Else():
@@ -399,6 +420,9 @@ class SuperSpeedStreamInEndpoint(Elaboratable):
 
                         # We no longer need to keep the data that's been acknowledged; clear it.
                         m.d.ss += read_fill_count.eq(0)
+
+                        # The acknowledged packet's sequence number has been used up, whatever we do next.
+                        m.d.comb += advance_sequence.eq(1)
 
                         # Figure out if we'll need to follow up with a ZLP. If we have ZLP generation enabled,
                         # we'll make sure we end on a short packet. If this is max-packet-size packet _and_ our
@@ -415,10 +439,7 @@ class SuperSpeedStreamInEndpoint(Elaboratable):
                             with m.If(is_in_token):
 
                                 # ... send a ZLP...
-                                m.d.comb += [
-                                    interface.tx_zlp.eq(1),
-                                    advance_sequence.eq(1),
-                                ]
+                                m.d.comb += interface.tx_zlp.eq(1)
 
                                 # ... and clear the need to follow up with one, since we've just sent a short packet.
                                 m.d.ss += [
@@ -437,9 +458,6 @@ class SuperSpeedStreamInEndpoint(Elaboratable):
                         # ready ourselves for transmit.
                         packet_completing = in_stream.valid & (write_fill_count + 4 >= self._max_packet_size)
                         with m.Elif(~in_stream.ready | packet_completing):
-                            m.d.comb += [
-                                advance_sequence   .eq(1),
-                            ]
                             m.d.ss += [
                                 ping_pong_toggle   .eq(~ping_pong_toggle),
                                 read_stream_ended  .eq(0),
@@ -458,5 +476,11 @@ class SuperSpeedStreamInEndpoint(Elaboratable):
                         # We'll wait for enough data to transmit.
                         with m.Else():
                             m.next = "WAIT_FOR_DATA"
+
+                            # If this ACK was also requesting another packet, we'll have to tell the
+                            # host that we don't have one, yet.
+                            with m.If(is_in_token):
+                                m.d.comb += handshakes_out.send_nrdy  .eq(1)
+                                m.d.ss   += erdy_required             .eq(1)
 
         return m
